@@ -12,26 +12,35 @@
 //	Ack(0)        the runners' acknowledgements, held at the job.srAck gate, are delivered; the
 //	              barriers then flow and every operator takes its DKV checkpoint
 //	Ack(o)        operator o's acknowledgement, held at the job.opAck gate, is delivered
-//	PubWrite      the job snapshot write, held at the store.write gate, is performed
+//	PubWrite      the job snapshot write, held at the store.write gate, is performed - in the model's
+//	              order: the write of a savepoint's checkpoint may be held while the NEXT checkpoint is
+//	              started, acknowledged and published (sup = the write is superseded on arrival)
 //	Retain(o)     the UpdateRetainedCheckpoints call to operator o, held at op.retain, is delivered
 //	SpCopyOp(o)   CreateSavepointArtifact's read of operator o's checkpoints document, held at
 //	              store.read, is performed; the copies that follow run freely
 //	Wipe          rm -rf of the working storage and of the job checkpoint files (only the
 //	              savepoints directory survives)
-//	Restore(N)    a second cluster with jobs.NewParams.SavepointURI and N workers
+//	Restore(N)    a second cluster with jobs.NewParams.SavepointURI and N workers; when it is not the
+//	              behaviour's last (savepoint chains) that cluster is gated like the first and the
+//	              behaviour goes on in it: more records, checkpoints, a savepoint of its own, wipe,
+//	              a third cluster started from THAT savepoint
 //	Flush/Compact advisory (the data layout is chosen by the configuration: memtable size,
 //	              burst length, compactor tuning; the layout actually reached is counted)
 //
 // Verdicts (only what C14 states; the model supplies ids, cuts and `must`):
 //   - CreateSavepoint returns the pending checkpoint's id and starts nothing when one is pending;
 //     otherwise it starts exactly one checkpoint with the next id;
-//   - when no later retention / publication stands in its way (`must`) the savepoint is produced;
+//   - when no later retention / publication stands in its way (`must`) the savepoint is produced - also
+//     when its checkpoint's publication is overtaken by the next checkpoint's;
 //   - a produced savepoint directory holds, per operator, the checkpoints document with an entry for
 //     the savepoint's id and every WAL / table file THAT entry references;
 //   - after rm -rf of the working storage a job started from the savepoint URI (same or different
 //     worker count) resumes at the source positions of checkpoint n and its handlers are given
 //     exactly the state of checkpoint n (every key is read back through the reference handler;
-//     with N >= W also through a checkpoint of the restored job);
+//     with N >= W also through a checkpoint of the restored job); this holds for every savepoint, also
+//     one taken by a job that was itself started from a savepoint. Checkpoint ids of a job started from
+//     a savepoint are taken from the real store (the model's ids are mapped onto them): C14 says
+//     nothing about their values, only that requests fold into the checkpoint in progress;
 //   - the running job is undisturbed: every handler invocation is given the failure-free state,
 //     the published checkpoints have the model's ids / cuts / contents, the newest one stays
 //     restorable, and a complete savepoint directory is never changed afterwards.
@@ -39,8 +48,11 @@ package main
 
 import (
 	"context"
+	"encoding/base64"
+	"encoding/binary"
 	"encoding/json"
 	"fmt"
+	"math"
 	"os"
 	"path"
 	"path/filepath"
@@ -50,7 +62,6 @@ import (
 	"sync/atomic"
 	"time"
 
-	"reduction.dev/reduction/proto/snapshotpb"
 	"reduction.dev/reduction/util/verifhook"
 	"verif/harness/cluster"
 	"verif/harness/gate"
@@ -66,6 +77,7 @@ type world struct {
 	res *mbt.Result
 	bi  int
 	si  int
+	beh []mbt.Step
 
 	W, KG, burst, nSplits, nKeys, tail int
 	splits                             [][]cluster.Record
@@ -89,6 +101,11 @@ type world struct {
 	spFailed                           bool
 	lastErr                            string
 	restoring                          bool
+	gen                                int            // savepoint generation (1 = the first job, 2 = the job started from the first savepoint, ...)
+	fedBase                            int            // records delivered before the running cluster was booted (the cut it started from)
+	rid                                map[int]uint64 // model checkpoint id -> id handed out by the real store
+	spSup                              bool           // the savepoint's publication was superseded (overtaken by the next checkpoint's)
+	diverged                           bool           // a job started from a savepoint numbers its checkpoints differently from the model
 	stop                               bool // behaviour ended early (expected failure of the artifact, drift)
 	failed                             bool // a violation was reported
 }
@@ -131,6 +148,23 @@ func (w *world) violate(what string, exp, obs any) {
 	}
 	w.failed = true
 	w.res.Violations = append(w.res.Violations, mbt.Violation{Property: prop, Behaviour: w.bi, Step: w.si, What: what, Expected: exp, Observed: obs})
+}
+
+// real returns the real store's id of model checkpoint id (identity unless learned otherwise).
+func (w *world) real(id int) uint64 {
+	if r, ok := w.rid[id]; ok {
+		return r
+	}
+	return uint64(id)
+}
+
+// learn records the id the real store handed out for model checkpoint id.
+func (w *world) learn(id int, got uint64) {
+	w.rid[id] = got
+	if got != uint64(id) && !w.diverged {
+		w.diverged = true
+		w.res.Count("restored_job_ids_differ_from_model", 1)
+	}
 }
 
 func (w *world) errorf(f string, a ...any) {
@@ -185,7 +219,7 @@ func sameCursors(a, b map[int]int) bool {
 }
 
 func replay(bi int, beh []mbt.Step, in *mbt.Input, res *mbt.Result) {
-	w := &world{in: in, res: res, bi: bi, opAcks: map[int]*gate.Arrival{}, writes: map[uint64]*gate.Arrival{}}
+	w := &world{in: in, res: res, bi: bi, opAcks: map[int]*gate.Arrival{}, writes: map[uint64]*gate.Arrival{}, gen: 1, rid: map[int]uint64{}, beh: beh}
 	w.W = in.CfgInt("NOps", 2)
 	w.KG = in.CfgInt("KeyGroups", 8)
 	w.burst = in.CfgInt("Burst", 1)
@@ -224,27 +258,17 @@ func replay(bi int, beh []mbt.Step, in *mbt.Input, res *mbt.Result) {
 	}
 	w.dir = dir
 
-	opt := cluster.Options{Workers: w.W, KeyGroups: w.KG, Splits: w.splits, Dir: dir, FullGiven: true,
-		Gates: []string{cluster.PJobOpAck, cluster.PJobSrAck, cluster.PStoreWrite, cluster.POpRetain, cluster.PStoreRead}}
-	if in.CfgBool("Verbose", false) {
-		opt.Log = os.Stderr
-	}
-	c, err := cluster.New(opt)
-	if err != nil {
-		w.errorf("cluster: %v", err)
-		return
-	}
-	w.c = c
 	defer func() {
 		if w.c != nil {
 			w.c.Retire()
 		}
 	}()
-	tuneOn.Store(true)
-	_, err = c.Boot()
-	tuneOn.Store(false)
-	if err != nil {
-		w.errorf("boot: %v", err)
+	if c, err := w.boot(w.W, "", 0, true); err != nil {
+		if c == nil {
+			w.errorf("cluster: %v", err)
+		} else {
+			w.errorf("boot: %v", err)
+		}
 		return
 	}
 
@@ -305,6 +329,32 @@ func replay(bi int, beh []mbt.Step, in *mbt.Input, res *mbt.Result) {
 	}
 }
 
+var gatePoints = []string{cluster.PJobOpAck, cluster.PJobSrAck, cluster.PStoreWrite, cluster.POpRetain, cluster.PStoreRead}
+
+// boot starts a cluster of n workers over the behaviour's directory (from savepointURI when given) and makes
+// it the current one. firstGen: the kit's generation-number base (fresh operator ids / DKV directories).
+func (w *world) boot(n int, savepointURI string, firstGen int, gated bool) (*cluster.Cluster, error) {
+	opt := cluster.Options{Workers: n, KeyGroups: w.KG, Splits: w.splits, Dir: w.dir, FullGiven: true, SavepointURI: savepointURI}
+	if gated {
+		opt.Gates = gatePoints
+	}
+	if w.in.CfgBool("Verbose", false) {
+		opt.Log = os.Stderr
+	}
+	c, err := cluster.New(opt)
+	if err != nil {
+		return nil, err
+	}
+	if firstGen > 0 {
+		c.SetFirstGeneration(firstGen)
+	}
+	w.c = c
+	tuneOn.Store(true)
+	_, err = c.Boot()
+	tuneOn.Store(false)
+	return c, err
+}
+
 func (w *world) logAll() []cluster.Obs {
 	if w.c == nil {
 		return nil
@@ -326,7 +376,7 @@ func (w *world) stepEv(st mbt.Step) {
 		r := w.rec(g)
 		w.c.PermitRead(w.c.SplitOwner(r.Split), r.Split, 1)
 		w.fed++
-		if !w.waitGivens(w.c, w.fed, 0) || w.failed {
+		if !w.waitGivens(w.c, w.fed-w.fedBase, 0) || w.failed {
 			return
 		}
 	}
@@ -405,8 +455,10 @@ func (w *world) countStarts() (n int, ids []uint64) {
 	}
 }
 
-// expectStarted: checkpoint `id` was started: W StartCheckpoint calls, then W runner acks park.
-func (w *world) expectStarted(id uint64) {
+// expectStarted: model checkpoint `id` was started: W StartCheckpoint calls, then W runner acks park.
+// want = the id the real store must have handed out; 0 = take it from the first StartCheckpoint call (a job
+// started from a savepoint: its numbering is the store's business, the model's ids are mapped onto it).
+func (w *world) expectStarted(id int, want uint64) {
 	deadline := time.Now().Add(wait)
 	n := 0
 	for n < w.W {
@@ -415,26 +467,39 @@ func (w *world) expectStarted(id uint64) {
 			w.errorf("StartCheckpoint(%d) reached only %d of %d runners", id, n, w.W)
 			return
 		}
-		if got := a.Args[0].(*cluster.Call).Ckpt; got != id {
-			w.violate(fmt.Sprintf("a checkpoint with id %d was started; the store's next id is %d", got, id), id, got)
+		got := a.Args[0].(*cluster.Call).Ckpt
+		if want == 0 {
+			want = got
+		}
+		if got != want {
+			w.violate(fmt.Sprintf("a checkpoint with id %d was started; the store's next id is %d", got, want), want, got)
 			return
 		}
 		n++
 	}
+	w.learn(id, want)
 	for len(w.srAcks) < w.W {
 		a, err := w.c.Sched().Await(gate.Point(cluster.PJobSrAck), time.Until(deadline))
 		if err != nil {
-			w.errorf("runner acks of checkpoint %d: only %d of %d arrived", id, len(w.srAcks), w.W)
+			w.errorf("runner acks of checkpoint %d: only %d of %d arrived", want, len(w.srAcks), w.W)
 			return
 		}
-		if got := a.Args[0].(*cluster.Call).Ckpt; got != id {
-			w.violate(fmt.Sprintf("a runner acknowledged checkpoint %d while checkpoint %d is the one in progress", got, id), id, got)
+		if got := a.Args[0].(*cluster.Call).Ckpt; got != want {
+			w.violate(fmt.Sprintf("a runner acknowledged checkpoint %d while checkpoint %d is the one in progress", got, want), want, got)
 			return
 		}
 		w.srAcks = append(w.srAcks, a)
 	}
-	w.pendingID = id
+	w.pendingID = want
 	w.started++
+}
+
+// nextReal: the id the real store must hand out for model checkpoint id (0 = unknown: learn it).
+func (w *world) nextReal(id int) uint64 {
+	if w.gen == 1 {
+		return uint64(id)
+	}
+	return 0
 }
 
 func (w *world) stepTick(st mbt.Step) {
@@ -453,7 +518,7 @@ func (w *world) stepTick(st mbt.Step) {
 		w.res.Count("tick_busy", 1)
 		return
 	}
-	w.expectStarted(uint64(st.Int("id")))
+	w.expectStarted(st.Int("id"), w.nextReal(st.Int("id")))
 }
 
 type spResult struct {
@@ -477,39 +542,41 @@ func (w *world) callSp() (spResult, bool) {
 }
 
 func (w *world) stepSp(st mbt.Step) {
-	id := uint64(st.Int("id"))
+	mid := st.Int("id")
 	r, ok := w.callSp()
 	if !ok {
 		return
 	}
 	if r.err != nil {
-		w.violate("HandleCreateSavepoint failed: "+r.err.Error(), id, r.err.Error())
+		w.violate("HandleCreateSavepoint failed: "+r.err.Error(), mid, r.err.Error())
 		return
 	}
-	w.spID = id
 	if !st.Bool("created") {
 		// fold: the pending checkpoint's id, nothing started
+		id := w.real(mid)
+		w.spID = id
 		n, ids := w.countStarts()
 		if r.id != id || n != 0 {
 			w.violate(fmt.Sprintf("a savepoint requested while checkpoint %d is in progress must return that id and start nothing: returned %d, %d StartCheckpoint calls %v", id, r.id, n, ids),
 				map[string]any{"id": id, "started": 0}, map[string]any{"id": r.id, "started": n})
 		}
 		w.res.Count("sp_folded", 1)
-		if id > 1 {
+		if mid > 1 {
 			w.res.Count("sp_folded_into_later_checkpoint", 1)
 		}
 		return
 	}
-	if r.id != id {
-		w.violate(fmt.Sprintf("the savepoint request returned checkpoint id %d, the store's next id is %d", r.id, id), id, r.id)
+	if want := w.nextReal(mid); want != 0 && r.id != want {
+		w.violate(fmt.Sprintf("the savepoint request returned checkpoint id %d, the store's next id is %d", r.id, want), want, r.id)
 		return
 	}
+	w.spID = r.id
 	w.res.Count("sp_created", 1)
-	w.expectStarted(id)
+	w.expectStarted(mid, r.id)
 }
 
 func (w *world) stepSpAgain(st mbt.Step) {
-	id := uint64(st.Int("id"))
+	id := w.real(st.Int("id"))
 	r, ok := w.callSp()
 	if !ok {
 		return
@@ -528,7 +595,7 @@ func opIndexOfLabel(l string) int {
 }
 
 func (w *world) stepAck(st mbt.Step) {
-	who, id := st.Int("who"), uint64(st.Int("id"))
+	who, id := st.Int("who"), w.real(st.Int("id"))
 	if who == 0 {
 		for _, a := range w.srAcks {
 			call := a.Args[0].(*cluster.Call)
@@ -601,7 +668,7 @@ func (w *world) waitCall(call *cluster.Call, what string) bool {
 }
 
 func (w *world) stepPubWrite(st mbt.Step) {
-	id := uint64(st.Int("id"))
+	id, sup := w.real(st.Int("id")), st.Bool("sup")
 	a := w.writes[id]
 	if a == nil {
 		w.errorf("no parked write of checkpoint %d", id)
@@ -623,6 +690,23 @@ func (w *world) stepPubWrite(st mbt.Step) {
 		return
 	}
 	w.published = append(w.published, id)
+	if sup {
+		// the write of checkpoint id finished after a newer checkpoint was published: it is obsolete on arrival
+		// (its file goes again, the operators may already have dropped it): nothing to read back. A savepoint
+		// among them still gets its artifact: the SpCopyOp steps that follow demand it.
+		w.res.Count("publication_overtaken", 1)
+		if st.Bool("sp") {
+			w.spSup = true
+			w.res.Count("sp_publication_overtaken", 1)
+		}
+		return
+	}
+	if w.diverged {
+		// a job started from a savepoint that numbers its checkpoints in its own way: what its working-storage
+		// checkpoints are worth under that numbering is C12/C13's subject; C14 is decided by the savepoints
+		w.res.Count("published_not_read_back_after_id_divergence", 1)
+		return
+	}
 	// the published checkpoint is the state at its cut
 	w.checkPublished(id, want)
 }
@@ -657,11 +741,11 @@ func (w *world) checkPublished(id uint64, cursors map[int]int) {
 }
 
 func (w *world) stepRetain(st mbt.Step) {
-	o, id := st.Int("o"), uint64(st.Int("id"))
+	o, id := st.Int("o"), w.real(st.Int("id"))
 	find := func() *gate.Arrival {
 		for i, a := range w.retains {
 			call := a.Args[0].(*cluster.Call)
-			if opIndexOfLabel(call.To)+1 == o && len(call.Ids) == 1 && call.Ids[0] == id {
+			if opIndexOfLabel(call.To)+1 == o && (w.diverged || (len(call.Ids) == 1 && call.Ids[0] == id)) {
 				w.retains = append(w.retains[:i], w.retains[i+1:]...)
 				return a
 			}
@@ -669,6 +753,11 @@ func (w *world) stepRetain(st mbt.Step) {
 		return nil
 	}
 	deadline := time.Now().Add(wait)
+	if w.diverged {
+		// the restored job numbers its checkpoints in another way than the model: which publications the store
+		// regards as superseded (no retention round) is not predictable from the model
+		deadline = time.Now().Add(300 * time.Millisecond)
+	}
 	a := find()
 	for a == nil {
 		lim := time.Until(deadline)
@@ -680,6 +769,10 @@ func (w *world) stepRetain(st mbt.Step) {
 			if len(w.retains) > 0 {
 				w.res.Driftf("behaviour %d: retention notifications arrive in another order than the model's queue (%s first)", w.bi, w.retains[0].Args[0].(*cluster.Call))
 				w.stop = true
+				return
+			}
+			if w.diverged {
+				w.res.Count("retention_round_absent_after_id_divergence", 1)
 				return
 			}
 			w.errorf("no retention call [%d] for operator %d arrived (%s)", id, o, tailOf(w.c))
@@ -702,26 +795,60 @@ func (w *world) stepRetain(st mbt.Step) {
 	time.Sleep(2 * time.Millisecond)
 }
 
-// the parked read of operator o's checkpoints document by CreateSavepointArtifact
+// snapshotFile is the name of job checkpoint id's snapshot file (storage/snapshots pathSegment).
+func snapshotFile(id uint64) string {
+	buf := make([]byte, 8)
+	binary.BigEndian.PutUint64(buf, math.MaxUint64-id)
+	return "job-" + base64.RawURLEncoding.EncodeToString(buf) + ".snapshot"
+}
+
+// the parked read of operator o's checkpoints document by CreateSavepointArtifact. The wait ends early when
+// the store is seen to have finished with the savepoint's checkpoint in another way: it removed the job
+// snapshot file the artifact would have to be built from (the last thing finishSnapshotAsync does with a
+// superseded checkpoint).
 func (w *world) awaitRead(o int) *gate.Arrival {
-	if w.read == nil {
-		a, err := w.c.Sched().Await(gate.Point(cluster.PStoreRead), wait)
-		if err != nil {
+	// the snapshot write has returned: the artifact code's first read is a few instructions away
+	deadline := time.Now().Add(min(wait, 5*time.Second))
+	for w.read == nil {
+		a, err := w.c.Sched().Await(gate.Point(cluster.PStoreRead), 20*time.Millisecond)
+		if err == nil {
+			w.read = a
+			break
+		}
+		for {
+			r, err := w.c.Sched().Await(gate.Point(cluster.PStoreRemove), 0)
+			if err != nil {
+				break
+			}
+			// (only a superseded checkpoint's file is removed by its own publication alone; the file of a checkpoint
+			// that was the newest one is also removed by the next publication, artifact or not)
+			if w.spSup && strings.Contains(r.Args[0].(*cluster.Call).Path, snapshotFile(w.spID)) {
+				w.lastErr = "the store removed the savepoint's job snapshot file without building the artifact"
+				return nil
+			}
+		}
+		if time.Now().After(deadline) {
 			return nil
 		}
-		w.read = a
 	}
 	return w.read
 }
 
 func (w *world) stepCopy(st mbt.Step) {
-	o, id, last, must := st.Int("o"), uint64(st.Int("id")), st.Bool("last"), st.Bool("must")
+	o, id, last, must := st.Int("o"), w.real(st.Int("id")), st.Bool("last"), st.Bool("must")
 	a := w.awaitRead(o)
 	if a == nil {
 		if w.drainErrors("before the artifact read of operator %d", o) {
 			return
 		}
-		w.violate(fmt.Sprintf("savepoint %d was published but the artifact for it is not being built (no read of operator %d's checkpoints document)", id, o), "store.read", nil)
+		if !w.modelProduces(st.Int("id")) {
+			// the model's own outcome is "no savepoint" (retention / a newer publication got in the way, or the
+			// behaviour ends before the copy does): the same outcome by another route is not a verdict
+			w.res.Count("artifact_not_started_where_model_produces_none", 1)
+			w.spFailed, w.stop = true, true
+			return
+		}
+		w.violate(fmt.Sprintf("savepoint %d was handed out, every participant acknowledged it and its checkpoint was published, but the artifact for it is not being built (no read of operator %d's checkpoints document) %s", id, o, w.lastErr), "store.read", w.lastErr)
 		return
 	}
 	w.read = nil
@@ -800,8 +927,27 @@ func (w *world) stepCopy(st mbt.Step) {
 		w.res.Count("sp_produced_where_model_fails", 1)
 	}
 	w.res.Count("sp_produced", 1)
+	if w.spSup {
+		w.res.Count("sp_produced_after_overtaken_publication", 1)
+	}
 	w.checkClosed()
 	w.spListing = listing(filepath.Dir(w.spURI))
+}
+
+// modelProduces: in the model the artifact of savepoint id (model id) is completed later in this behaviour.
+func (w *world) modelProduces(id int) bool {
+	for _, st := range w.beh[w.si:] {
+		if st.Str("a") != "SpCopyOp" || st.Int("id") != id {
+			continue
+		}
+		if !st.Bool("ok") {
+			return false
+		}
+		if st.Bool("last") {
+			return true
+		}
+	}
+	return false
 }
 
 // drainErrors reports whether the job reported an error (artifact creation failure).
@@ -1084,24 +1230,16 @@ func (w *world) quiesce(dir string) {
 }
 
 func (w *world) stepRestore(st mbt.Step) {
-	N, id := st.Int("N"), uint64(st.Int("id"))
+	N, id := st.Int("N"), w.real(st.Int("id"))
+	last := !st.Has("last") || st.Bool("last") // FALSE: a savepoint chain - the behaviour goes on in the restored job
 	cutRecs := st.Int("cut") * w.burst
 	wantCur := w.cursorsAt(cutRecs)
-	opt := cluster.Options{Workers: N, KeyGroups: w.KG, Splits: w.splits, Dir: w.dir, FullGiven: true, SavepointURI: w.spURI}
-	if w.in.CfgBool("Verbose", false) {
-		opt.Log = os.Stderr
-	}
-	c2, err := cluster.New(opt)
-	if err != nil {
+	w.restoring = true
+	c2, err := w.boot(N, w.spURI, 10*w.gen, !last)
+	if c2 == nil {
 		w.errorf("second cluster: %v", err)
 		return
 	}
-	c2.SetFirstGeneration(10)
-	w.c = c2
-	w.restoring = true
-	tuneOn.Store(true)
-	_, err = c2.Boot()
-	tuneOn.Store(false)
 	if err != nil {
 		if strings.Contains(err.Error(), cluster.ErrBootTimeout.Error()) && !logHas(c2, "panic") && !deployFailed(c2) {
 			w.errorf("restore: %v", err)
@@ -1142,6 +1280,22 @@ func (w *world) stepRestore(st mbt.Step) {
 		}
 		w.violate(fmt.Sprintf("the job started from savepoint %d resumes the source at %v; checkpoint %d was cut at %v", id, got, id, wantCur), wantCur, got)
 		return
+	}
+	if !last {
+		// savepoint chain: the job started from the savepoint is the running job from here on. What it was
+		// given is checked by every handler invocation that follows (the failure-free state of the key) and,
+		// in full, when the job started from ITS savepoint is read back.
+		w.gen++
+		w.fed, w.fedBase = cutRecs, cutRecs
+		w.pendingID, w.srAcks, w.opAcks, w.writes = 0, nil, map[int]*gate.Arrival{}, map[uint64]*gate.Arrival{}
+		w.retains, w.read, w.published = nil, nil, nil
+		w.spID, w.spURI, w.spListing, w.lastErr, w.spSup = 0, "", nil, "", false
+		w.restoring = false
+		w.res.Count("chain_restored_job_goes_on", 1)
+		return
+	}
+	if w.gen > 1 {
+		w.res.Count("chain_second_savepoint_restored", 1)
 	}
 	// N = W: every new operator opens exactly its predecessor's checkpoint: the restored state is also read
 	// back through a checkpoint of the new job, at once and at the end. With another worker count a
@@ -1216,7 +1370,8 @@ func (w *world) tickAndCheck(c *cluster.Cluster, id uint64, cursors map[int]int,
 		w.errorf("restored cluster: tick did not return")
 		return false
 	}
-	if _, ok := c.WaitObs(mark, wait, func(o cluster.Obs) bool { return o.Kind == "published" }); !ok {
+	next, ok := c.WaitObs(mark, wait, func(o cluster.Obs) bool { return o.Kind == "published" })
+	if !ok {
 		if logHas(c, "panic") {
 			w.violate("the job started from the savepoint cannot checkpoint "+when+": "+panicsOf(c), nil, panicsOf(c))
 			return false
@@ -1224,21 +1379,14 @@ func (w *world) tickAndCheck(c *cluster.Cluster, id uint64, cursors map[int]int,
 		w.errorf("restored cluster: no checkpoint published %s (%s)", when, tailOf(c))
 		return false
 	}
-	ck, err := c.LatestPublished()
-	if err != nil || ck == nil {
-		w.errorf("restored cluster: latest published: %v", err)
+	// the checkpoint is judged by what was WRITTEN (the observation of the write: id, cursors, operator
+	// checkpoints), not by the snapshot file: whether the store keeps that file is not this property
+	pub := c.Log(next - 1)[0]
+	if !sameCursors(pub.Cursors, cursors) {
+		w.violate(fmt.Sprintf("the restored job's source positions %s are %v, want %v", when, pub.Cursors, cursors), cursors, pub.Cursors)
 		return false
 	}
-	stt, err := c.ReadCheckpointState(ck)
-	if err != nil {
-		w.violate(fmt.Sprintf("the checkpoint the restored job takes %s cannot be read back: %v", when, err), nil, err.Error())
-		return false
-	}
-	if !sameCursors(stt.Cursors, cursors) {
-		w.violate(fmt.Sprintf("the restored job's source positions %s are %v, want %v", when, stt.Cursors, cursors), cursors, stt.Cursors)
-		return false
-	}
-	keys, err := ownedState(ck, c.Options().KeyGroups, c.Options().Workers)
+	keys, err := ownedState(pub.OpCkpts, c.Options().KeyGroups, c.Options().Workers)
 	if err != nil {
 		w.violate(fmt.Sprintf("the checkpoint the restored job takes %s cannot be read back: %v", when, err), nil, err.Error())
 		return false
@@ -1247,11 +1395,18 @@ func (w *world) tickAndCheck(c *cluster.Cluster, id uint64, cursors map[int]int,
 		w.violate(fmt.Sprintf("the state of the job started from savepoint %d %s is not the state of checkpoint %d (+ the records since): %s", w.spID, when, w.spID, d), nil, d)
 		return false
 	}
+	if pub.Ckpt <= w.spID {
+		// the restored job does not number its checkpoints above the savepoint's id: whether the store announces
+		// this publication to the operators at all is its own business (C12/C13), nothing to wait for
+		w.res.Count("restored_job_ids_do_not_continue", 1)
+		time.Sleep(50 * time.Millisecond)
+		return true
+	}
 	// let the retention round retained=[id] reach every operator before anything else happens: a notification
 	// that arrives after the next DKV checkpoint was taken drops that checkpoint (DESIGN 7 #28, not this
 	// property). The kit's WaitRetention does not expect a round after the first publication of a job started
 	// from a savepoint, so the round is awaited here by its observations.
-	want := fmt.Sprint([]uint64{ck.Id})
+	want := fmt.Sprint([]uint64{pub.Ckpt})
 	n := 0
 	deadline := time.Now().Add(wait)
 	for n < c.Options().Workers {
@@ -1273,15 +1428,14 @@ func (w *world) tickAndCheck(c *cluster.Cluster, id uint64, cursors map[int]int,
 // ownedState reads a job checkpoint back from the operators' DKV checkpoints, keeping of every operator
 // checkpoint only the keys that operator owns (after a rescale an operator's database still physically holds
 // entries of key groups it no longer owns; they are filtered by ownership when read).
-func ownedState(ck *snapshotpb.JobCheckpoint, keyGroups, workers int) (map[string]*cluster.KeyState, error) {
+func ownedState(ocs []cluster.OpCheckpoint, keyGroups, workers int) (map[string]*cluster.KeyState, error) {
 	out := map[string]*cluster.KeyState{}
-	for _, oc := range ck.OperatorCheckpoints {
-		o := cluster.OpCheckpoint{Ckpt: oc.CheckpointId, Op: oc.OperatorId, URI: oc.DkvFileUri}
+	for _, o := range ocs {
 		keys, err := cluster.ReadOperatorCheckpoint(o, keyGroups)
 		if err != nil {
 			return nil, err
 		}
-		idx := cluster.OpIndexOfID(oc.OperatorId)
+		idx := cluster.OpIndexOfID(o.Op)
 		for k, ks := range keys {
 			if cluster.OwnerOf(keyGroups, workers, k) != idx {
 				continue
